@@ -72,6 +72,28 @@ HeaderValue(lines, name) ==   \* value bytes after "name: " of the last line wit
     IN IF hit = {} THEN [found |-> FALSE, v |-> <<>>]
        ELSE [found |-> TRUE, v |-> From(lines[MaxOf(hit)], Len(pre) + 1)]
 
+\* The head of a response alone (status line and header lines through the blank line): [ok, code, n, next]
+\* with n = the announced body length (0 if none is announced), next = position after the blank line.
+ReadHead(s, from) ==
+    LET bad == [ok |-> FALSE, code |-> 0, n |-> 0, next |-> from]
+        p == FindCRLF(s, from, Len(s))
+    IN IF p = 0 THEN bad
+       ELSE
+       LET sl == Slice(s, from, p - 1)
+           v == ParseVersion(Slice(sl, 1, 8))
+           codeOk == Len(sl) >= 12 /\ sl[9] = SP /\ \A i \in 10..12 : IsDigit(sl[i])
+                     /\ (Len(sl) = 12 \/ (Len(sl) = 13 /\ sl[13] = SP))
+       IN IF v = "bad" \/ ~codeOk THEN bad
+          ELSE
+          LET hl == HeaderLinesFrom(s, p + 2, <<>>)
+          IN IF ~hl.ok THEN bad
+             ELSE
+             LET clv == HeaderValue(hl.lines, L_R_CL)
+                 pu == ParseU32(clv.v)
+             IN IF clv.found /\ (~pu.ok \/ Len(pu.d) > 9) THEN bad
+                ELSE [ok |-> TRUE, code |-> (sl[10] - 48) * 100 + (sl[11] - 48) * 10 + (sl[12] - 48),
+                      n |-> IF clv.found THEN DigitsNat(pu.d) ELSE 0, next |-> hl.next]
+
 ReadOne(s, from) ==
     LET bad == [ok |-> FALSE, v |-> "bad", code |-> 0, lines |-> <<>>, body |-> <<>>, next |-> from]
         p == FindCRLF(s, from, Len(s))
